@@ -38,12 +38,10 @@ def model_check(rep):
     runs = []
     if rep.tier == "quick":
         # A: the base catalogue, every history up to 6 events on two contexts;
-        # B: the whole catalogue (with the re-declaration and inventory kinds), short, with -coverage;
-        # C: the same, shorter, with the spelled-out recovery clause; D: everything that touches the two names and
-        #    the inventory target, up to 5 events
+        # B: the whole catalogue (with the re-declaration and inventory kinds), short, with -coverage and the
+        #    spelled-out recovery clause; C: everything that touches the two names and the inventory target, <= 5 events
         runs.append(("catalogue-len6", consts(2, 6, [1], BASE_KINDS), "", False))
-        runs.append(("whole-catalogue-len3-coverage", consts(2, 3, [1], ALL_KINDS), "", True))
-        runs.append(("whole-catalogue-len2-recovery", consts(2, 2, [1], ALL_KINDS), "RecoveryBehaviour", False))
+        runs.append(("whole-catalogue-len2-coverage", consts(2, 2, [1], ALL_KINDS), "RecoveryBehaviour", True))
         runs.append(("names-inventory-len5", consts(2, 5, [1], NAME_KINDS + INV_KINDS[:3]), "", False))
     else:
         runs.append(("catalogue-len6-coverage", consts(2, 6, [1], BASE_KINDS), "", True))
